@@ -4,7 +4,7 @@
   `predict`, `read_residuals` — with the machine arithmetic of both build profiles.
 -/
 import FlacModel.Model.Frame
-import FlacModel.Gen.Kernels
+import FlacModel.Gen.KernelsDec
 
 namespace Flac
 open Gen
